@@ -742,8 +742,19 @@ def prod(a, *args, **kwargs):
 
 
 @implements(np.var)
-def var(a, *args, **kwargs):
-    return np.var._implementation(np.asarray(a), *args, **kwargs) * a.units**2
+def var(a, axis=None, dtype=None, out=None, *args, **kwargs):
+    ret_units = a.units**2
+    if out is None:
+        return (
+            np.var._implementation(np.asarray(a), axis, dtype, None, *args, **kwargs)
+            * ret_units
+        )
+    res = np.var._implementation(
+        np.asarray(a), axis, dtype, np.asarray(out), *args, **kwargs
+    )
+    if getattr(out, "units", None) is not None:
+        out.units = ret_units
+    return unyt_array(res, ret_units, bypass_validation=True)
 
 
 @implements(np.trace)
